@@ -177,6 +177,37 @@ class AbsInt:
                     vals = []
                     sub = AbsInt.Ctx(f, ctx.env if f is ctx.fi else {}, ctx.depth + 1)
                     sub.busy = ctx.busy
+                    # self-referential re-bindings (`V = lazify(V)`, `x = x[..., None]`) are evaluated on top of
+                    # the join of the other bindings
+                    selfref = [(v, path, st) for v, path, st in asg if not isinstance(v, ast.AugAssign) and name in df.names_in(v)]
+                    if selfref and len(selfref) < len(asg) + (1 if name in params and f is ctx.fi else 0):
+                        plain = [x for x in asg if x not in selfref]
+                        base_vals = []
+                        for v, path, st in plain:
+                            if isinstance(v, ast.AugAssign):
+                                continue
+                            val = self.ev(v, sub)
+                            if path is not None:
+                                for p in path:
+                                    val = self.index(val, "*" if p == "iter" else p) if p != "with" else val
+                            base_vals.append(val)
+                        if name in params and f is ctx.fi:
+                            base_vals.append(self.param(f, name))
+                        if base_vals:
+                            cur = self.join(base_vals)
+                            # straight-line re-bindings replace the value in program order; conditional ones join
+                            for v, path, st in sorted(selfref, key=lambda x: (x[2].lineno, x[2].col_offset)):
+                                env2 = dict(sub.env)
+                                env2[name] = cur
+                                sub2 = AbsInt.Ctx(f, env2, ctx.depth + 1)
+                                sub2.busy = ctx.busy
+                                val = self.ev(v, sub2)
+                                if path is not None:
+                                    for p in path:
+                                        val = self.index(val, "*" if p == "iter" else p) if p != "with" else val
+                                top_level = getattr(st, "_parent", None) is f.node
+                                cur = val if top_level else self.join([cur, val])
+                            return cur
                     for v, path, st in asg:
                         if isinstance(v, ast.AugAssign):
                             vals.append(self.binop(ast.BinOp(left=ast.Name(id=name, ctx=ast.Load()), op=v.op, right=v.value), self.unknown("aug"), self.ev(v.value, sub), sub))
